@@ -298,6 +298,14 @@ func checkRDF(c rdfCase) *vk.Failure {
 	}
 	a := build(qs, "b", nil, nil)
 	b := build(qs, "x", c.Relabel, order)
+	contexts := map[tref]bool{}
+	for _, q := range qs {
+		contexts[q.G] = true
+	}
+	multiGraph := len(contexts) >= 2
+	if multiGraph {
+		vk.Class("rdf multi-graph dataset")
+	}
 	for _, fn := range canonFns(c) {
 		ca, err := fn.f(build(qs, "b", nil, nil))
 		if err != nil {
@@ -320,8 +328,21 @@ func checkRDF(c rdfCase) *vk.Failure {
 				return vk.Failf(key+strings.SplitN(fn.name, "(", 2)[0], "%s returned the statement %q, which does not parse as N-Quads (err=%v); the input statement holds the IRI with \\u escapes", fn.name, line, err)
 			}
 		}
+		// the same statements twice: the output must not depend on map
+		// iteration order or other hidden state
+		if again, err := fn.f(build(qs, "b", nil, nil)); err == nil && !eqStrings(ca, again) {
+			return vk.Failf("c14n-nondeterministic/"+strings.SplitN(fn.name, "(", 2)[0], "%s returns different results for two calls with identical input:\n%s\nvs\n%s", fn.name, strings.Join(ca, "\n"), strings.Join(again, "\n"))
+		}
 		if !eqStrings(ca, cb) {
-			return vk.Failf("c14n-label-dependent/"+strings.SplitN(fn.name, "(", 2)[0], "%s gives different canonical forms for a dataset and its blank-relabelled, reordered copy:\n%s\nvs\n%s", fn.name, strings.Join(ca, "\n"), strings.Join(cb, "\n"))
+			// Recorded finding for datasets with more than one graph context:
+			// the related-blank-node hash of the algorithm does not include the
+			// graph name, so non-automorphic nodes can tie and the tie is
+			// broken by input order. Single-graph datasets must be invariant.
+			key := "c14n-label-dependent/"
+			if multiGraph {
+				key = "c14n-label-dependent-multigraph/"
+			}
+			return vk.Failf(key+strings.SplitN(fn.name, "(", 2)[0], "%s gives different canonical forms for a dataset and its blank-relabelled, reordered copy:\n%s\nvs\n%s", fn.name, strings.Join(ca, "\n"), strings.Join(cb, "\n"))
 		}
 		for _, line := range ca {
 			if strings.Contains(line, "_:b") || strings.Contains(line, "_:x") {
